@@ -81,6 +81,7 @@ class H:
         self.bus = Bus(self.w, base_lat=1e-4)
         self.st = Stack(self.bus, 'X')
         self.ecu = self.st.ecu
+        self.ca = self.st.add_ca(0x80, name_value=0x4242)      # callback 2 / message callback 1 go through the CA's wrappers
         self.eps = eps
         self.cbs = [CB(self, i) for i in range(NCB)]
         self.mcbs = [MCB(self, i) for i in range(NCB)]
@@ -98,20 +99,20 @@ class H:
         if k == 'add':
             _k, i, delta, periodic = op
             reg = len(self.regs)
-            self.ecu.add_timer(delta, self.cbs[i], Cookie(periodic, reg))
+            (self.ca if i == 2 else self.ecu).add_timer(delta, self.cbs[i], Cookie(periodic, reg))
             self.regs.append({'reg': reg, 'cb': i, 'delta': delta, 'periodic': periodic, 't_add': w.now, 't_rm': None})
         elif k == 'rm':
             t0 = w.now
-            self.ecu.remove_timer(self.cbs[op[1]])
+            (self.ca if op[1] == 2 else self.ecu).remove_timer(self.cbs[op[1]])
             for r in self.regs:
                 if r['cb'] == op[1] and r['t_rm'] is None:
                     r['t_rm'] = w.now
                     r['t_rm0'] = t0
         elif k == 'sub':
-            self.ecu.subscribe(self.mcbs[op[1]])
+            (self.ca if op[1] == 1 else self.ecu).subscribe(self.mcbs[op[1]])
             self.subs[op[1]] += 1
         elif k == 'unsub':
-            self.ecu.unsubscribe(self.mcbs[op[1]])
+            (self.ca if op[1] == 1 else self.ecu).unsubscribe(self.mcbs[op[1]])
             self.subs[op[1]] = 0
         elif k == 'in':
             self.cbs[op[1]].pending.append(op[2])
